@@ -1,6 +1,7 @@
 package props
 
 import (
+	"bytes"
 	"encoding/json"
 	"fmt"
 	"math/rand"
@@ -8,9 +9,12 @@ import (
 	"path/filepath"
 	"regexp"
 	"strings"
+	"sync"
 	"syscall"
+	"time"
 
 	"github.com/mimecast/dtail/verifharness/internal/vlib"
+	"golang.org/x/crypto/ssh/knownhosts"
 )
 
 // C08 — users read only files their permission rules allow.
@@ -367,7 +371,140 @@ func c08(r *vlib.Run) int {
 		}
 	}
 	c08E2E(r)
+	c08CrossSession(r)
 	return n / 2
+}
+
+// c08CrossSession: two users with different rules work on one server at the
+// same time, for a few seconds: alice (may read everything) keeps reading a
+// large file bob may not read; bob greps and cats his own files with and
+// without context options. Every line bob receives must be a line of a file
+// bob may read - nothing of another session's content may ever show up in his.
+func c08CrossSession(r *vlib.Run) {
+	alice, _ := vlib.GenKey("ed25519")
+	bob, _ := vlib.GenKey("ed25519")
+	if alice == nil || bob == nil {
+		r.Inconclusive("keygen")
+		return
+	}
+	spec := &vlib.ServerSpec{Name: "c08x", LogLevel: "error",
+		Users: map[string][]string{"alice": {alice.AuthKey}, "bob": {bob.AuthKey}}}
+	spec.Dir = r.Dir("srv-c08x")
+	root, _ := filepath.EvalSymlinks(spec.Dir)
+	root = filepath.Join(root, "xroot")
+	spec.Server = map[string]interface{}{"MaxConnections": 100, "MaxConcurrentCats": 20,
+		"Permissions": map[string]interface{}{"Default": []string{"!^/.*"},
+			"Users": map[string]interface{}{"alice": []string{"^" + root + "/.*"}, "bob": []string{"!^" + root + "/secret/.*", "^" + root + "/pub/.*"}}}}
+	os.MkdirAll(filepath.Join(root, "secret"), 0755)
+	os.MkdirAll(filepath.Join(root, "pub"), 0755)
+	var sb bytes.Buffer
+	for k := 0; k < 40000; k++ {
+		fmt.Fprintf(&sb, "SECRET record %06d password=hunter%06d\n", k, k)
+	}
+	os.WriteFile(filepath.Join(root, "secret", "big.log"), sb.Bytes(), 0644)
+	pubLines := map[string]bool{}
+	for f := 0; f < 3; f++ {
+		var pb bytes.Buffer
+		for k := 0; k < 4000; k++ {
+			l := fmt.Sprintf("PUB file %d line %05d quiet", f, k)
+			if k%9 == 4 {
+				l = fmt.Sprintf("PUB file %d line %05d hit", f, k)
+			}
+			pubLines[l] = true
+			pb.WriteString(l + "\n")
+		}
+		os.WriteFile(filepath.Join(root, "pub", fmt.Sprintf("p%d.log", f)), pb.Bytes(), 0644)
+	}
+	srv, err := r.StartServer(spec)
+	if err != nil {
+		r.Inconclusive("server-start")
+		return
+	}
+	defer srv.Stop()
+	mkHome := func(name string, k *vlib.Key) (string, string) {
+		home, keyFile := r.ClientHome("c08x-"+name, k)
+		os.WriteFile(filepath.Join(home, ".ssh", "known_hosts"), []byte(knownhosts.Line([]string{srv.Addr()}, srv.Spec.HostKey.Signer.PublicKey())+"\n"), 0600)
+		return home, keyFile
+	}
+	aHome, aKey := mkHome("alice", alice)
+	bHome, bKey := mkHome("bob", bob)
+	defer os.RemoveAll(aHome)
+	defer os.RemoveAll(bHome)
+	client := func(bin, user, home, keyFile string, args ...string) *vlib.Result {
+		full := append([]string{"--cfg", "none", "--key", keyFile, "--user", user, "--servers", srv.Addr(), "--logger", "stdout", "--logLevel", "error", "--plain"}, args...)
+		return vlib.RunCmd(vlib.Cmd{Path: r.Bin(bin), Args: full, Env: []string{"HOME=" + home}, Dir: home, Watchdog: 120 * time.Second})
+	}
+	stop := make(chan struct{})
+	var wg sync.WaitGroup
+	for a := 0; a < 3; a++ {
+		wg.Add(1)
+		go func(a int) {
+			defer wg.Done()
+			for {
+				select {
+				case <-stop:
+					return
+				default:
+				}
+				var res *vlib.Result
+				if a == 2 {
+					res = client("dgrep", "alice", aHome, aKey, "--files", filepath.Join(root, "secret", "big.log"), "--regex", "record 0000", "--max", "3")
+				} else {
+					res = client("dcat", "alice", aHome, aKey, "--files", filepath.Join(root, "secret", "big.log"))
+				}
+				r.Count("cross_session_other_users_sessions", 1)
+				_ = res
+			}
+		}(a)
+	}
+	rounds := r.N(10, 80)
+	pubGlob := filepath.Join(root, "pub", "*.log")
+	variants := [][]string{{"--after", "2"}, {"--before", "1"}, {"--after", "1", "--before", "2"}, {}, {"--max", "5", "--after", "3"}}
+	foreign, checked := 0, 0
+	var examples []string
+	for k := 0; k < rounds; k++ {
+		var res *vlib.Result
+		if k%5 == 3 {
+			res = client("dcat", "bob", bHome, bKey, "--files", pubGlob)
+		} else {
+			res = client("dgrep", "bob", bHome, bKey, append([]string{"--files", pubGlob, "--regex", "hit$"}, variants[k%len(variants)]...)...)
+		}
+		r.Eval(fmt.Sprintf("cross-session|%d", k))
+		if res.TimedOut {
+			r.Inconclusive("client-watchdog")
+			continue
+		}
+		// also a request for the secret file itself, in the same breath
+		if k%4 == 0 {
+			deny := client("dcat", "bob", bHome, bKey, "--files", filepath.Join(root, "secret", "big.log"))
+			if bytes.Contains(deny.Stdout, []byte("SECRET record")) {
+				foreign++
+				examples = append(examples, "direct request for the denied file was served")
+			}
+		}
+		for _, l := range strings.Split(strings.TrimSuffix(string(res.Stdout), "\n"), "\n") {
+			if l == "" {
+				continue
+			}
+			checked++
+			if !pubLines[l] {
+				foreign++
+				if len(examples) < 6 {
+					examples = append(examples, vlib.Trunc(l, 160))
+				}
+			}
+		}
+	}
+	close(stop)
+	wg.Wait()
+	r.Count("cross_session_lines_received_and_checked", checked)
+	if foreign > 0 {
+		r.Violation("session-received-content-the-user-may-not-read", map[string]interface{}{"lines_that_are_no_line_of_a_permitted_file": foreign, "examples": examples,
+			"scenario": "bob (pub/ only) greps/cats his files while alice's sessions read secret/big.log on the same server"})
+	}
+	if !srv.D.Alive() {
+		r.Violation("e2e-server-died", map[string]interface{}{"scenario": "cross-session"})
+	}
 }
 
 func c08E2E(r *vlib.Run) {
